@@ -215,7 +215,7 @@ func S3(tier string, fees bool) *Scenario {
 		BatchPrices: []string{"1", "2"}, WorthAmts: []string{"6"}, ManyAmts: []string{"3"},
 		ModPrices: []string{"2"}, ModAmts: []string{},
 		Cancellers: []string{"auc2", "auc1"},
-		MaxK:       7, BlockStops: []int{1, 2, 3, 4, 5, 6},
+		MaxK:       7, BlockStops: []int{1, 2, 3, 4, 5, 6, 7}, // 7: a block after auction 0 has finished (first of several)
 		Creates: []Op{{Kind: "create_fixed", Signer: "auc2", StartPrice: "1", Sell: "5acoin", PayDenom: "bcoin", StartK: 1, EndK: 3}},
 	}
 	bud := Budget{"create": 1, "allow": 0, "update": 1, "bid": 2, "mod": 1, "cancel": 1, "block": 5}
